@@ -190,6 +190,41 @@ Section Client.
     end.
 End Client.
 
+(* ================================================================== one SnepClient object *)
+(* Which connection a request travels on (SnepClient.connect / close / get_octets / put_octets):
+   a request on an object without a connection connects to the default server urn:nfc:sn:snep,
+   sets self.release_connection and closes afterwards; a request on a connected object clears the
+   flag and leaves the connection open. *)
+Inductive capi := ApiConnect (service : Z) | ApiClose | ApiRequest (op : cop).
+Inductive cact := ActConnect (service : Z) | ActRequest (op : cop) | ActClose.
+Record cobj := { o_sock : option Z; o_release : bool }.
+Definition DEFAULT_SERVICE : Z := 0.      (* 'urn:nfc:sn:snep' *)
+
+Definition api_close (c : cobj) : cobj * list cact :=
+  match o_sock c with
+  | Some _ => ({| o_sock := None; o_release := o_release c |}, [ActClose])
+  | None => (c, [])
+  end.
+Definition api_step (c : cobj) (a : capi) : cobj * list cact :=
+  match a with
+  | ApiClose => api_close c
+  | ApiConnect s =>                         (* self.close(); self.socket = Socket(..); connect(service_name) *)
+      let r := api_close c in
+      ({| o_sock := Some s; o_release := o_release (fst r) |}, snd r ++ [ActConnect s])
+  | ApiRequest op =>
+      let c1 := match o_sock c with         (* if not self.socket: connect(default); release = True *)
+                | None => ({| o_sock := Some DEFAULT_SERVICE; o_release := true |}, [ActConnect DEFAULT_SERVICE])
+                | Some s => ({| o_sock := Some s; o_release := false |}, [])     (* else: release = False *)
+                end in
+      let c2 := if o_release (fst c1) then api_close (fst c1) else (fst c1, []) in   (* finally *)
+      (fst c2, snd c1 ++ [ActRequest op] ++ snd c2)
+  end.
+Fixpoint api_run (c : cobj) (l : list capi) : cobj * list cact :=
+  match l with
+  | [] => (c, [])
+  | a :: r => let s1 := api_step c a in let s2 := api_run (fst s1) r in (fst s2, snd s1 ++ snd s2)
+  end.
+
 (* ================================================================== servers *)
 Inductive call :=
 | CallPut (octets : list Z)     (* process_put_request(records decoded from octets) *)
